@@ -23,12 +23,12 @@ type keyT struct {
 }
 
 type nonceT struct {
-	k      *big.Int
-	kinv   *big.Int
-	R      refec.Point
-	r      *big.Int // R.x mod n
-	kEven  *big.Int // nonce of the even-y point
-	rx     []byte
+	k     *big.Int
+	kinv  *big.Int
+	R     refec.Point
+	r     *big.Int // R.x mod n
+	kEven *big.Int // nonce of the even-y point
+	rx    []byte
 }
 
 const (
